@@ -1,48 +1,188 @@
-(* Correspondence check for C11: histories of heartbeats / collector sweeps /
-   disconnects on a real topology.Topology; after EVERY step the harness records
-   the layout's writables, read-only and oversized sets, Topology.Lookup for every
-   vid of the universe and the registered state (every linked DataNode's volumes). *)
+(* Correspondence check for C11: histories of heartbeat streams (connect, full /
+   incremental heartbeats, end of stream), collector sweeps on a real
+   topology.Topology with several volume layouts.  After EVERY step the harness
+   records, per layout: writables, vid2location, the read-only and oversized
+   DataNode lists per vid, the answer of PickForWrite without option and with a
+   DataCenter+Rack option; Topology.Lookup of every vid; every DataNode object
+   the streams ever got (linked?, volumes with size / read-only / layout key). *)
 From Coq Require Import List NArith Bool.
-From SW Require Export base.Verdict model.TopoLayout.
+From SW Require Export base.Verdict model.TopoLayout model.TopoMulti.
 Import ListNotations.
 Local Open Scope N_scope.
 
+Record lobs := {
+  lo_writ : list N;                 (* sorted vl.writables *)
+  lo_loc : list (N * list N);       (* vid2location: sorted by vid, addresses sorted *)
+  lo_ro : list (N * list N);        (* readonlyVolumes.copyMap *)
+  lo_os : list (N * list N);        (* oversizedVolumes.copyMap *)
+  lo_pick : N * list N;             (* PickForWrite(no option): (vid, sorted locations); (0, []) = error *)
+  lo_pickdc : N                     (* PickForWrite(DataCenter dc1, Rack rack0): vid; 0 = none; 999 = panic *)
+}.
+Definition rvol := (N * (N * bool * N))%type.   (* vid, (size, read-only, layout key) *)
 Record obs := {
-  ob_writ : list N;                          (* sorted vl.writables *)
-  ob_ro : list N;                            (* sorted readonlyVolumes.Dump() *)
-  ob_os : list N;                            (* sorted oversizedVolumes.Dump() *)
-  ob_look : list (N * list N);               (* for every vid of the universe: sorted Lookup *)
-  ob_reg : list (N * list (N * (N * bool)))  (* linked nodes with >= 1 volume, sorted: node -> sorted (vid,(size,ro)) *)
+  ob_lays : list lobs;              (* one per layout key 0 .. K-1 *)
+  ob_look : list (N * list N);      (* for every vid of the universe: sorted Topology.Lookup("", vid) *)
+  ob_reg : list (bool * list rvol)  (* DataNode objects in creation order: linked, sorted volumes *)
 }.
 
-Record case := { k_cfg : cfg; k_univ : list N; k_evs : list event; k_impl : list obs }.
+Record case := { k_mc : mcfg; k_univ : list N; k_evs : list mevent; k_impl : list obs }.
 
-Definition look_eqb := list_eqb (fun a b : N * list N => (fst a =? fst b) && nl_eqb (snd a) (snd b)).
-Definition obs_eqb (a b : obs) : bool :=
-  nl_eqb (ob_writ a) (ob_writ b) && nl_eqb (ob_ro a) (ob_ro b) && nl_eqb (ob_os a) (ob_os b) &&
-  look_eqb (ob_look a) (ob_look b) && reg_eqb (ob_reg a) (ob_reg b).
+Definition vmap_eqb := list_eqb (fun a b : N * list N => (fst a =? fst b) && nl_eqb (snd a) (snd b)).
+Definition smap (m : list (N * list N)) : list (N * list N) :=
+  ksort fst (map (fun p : N * list N => (fst p, nsort (snd p))) m).
+Definition amem (x : list N) (l : list (list N)) : bool := existsb (nl_eqb x) l.
+Definition keys_of (ls : list lobs) : list (N * lobs) := combine (map N.of_nat (seq 0 (length ls))) ls.
 
-(* the model's observables of one state *)
-Definition obs_of (univ : list N) (s : state) : obs :=
-  {| ob_writ := nsort (l_writ (s_lay s));
-     ob_ro := nsort (map fst (l_ro (s_lay s)));
-     ob_os := nsort (map fst (l_os (s_lay s)));
-     ob_look := map (fun v => (v, nsort (lookup s v))) univ;
-     ob_reg := reg_of (s_nodes s) |}.
+(* ---------- model = implementation ---------- *)
+Definition lobs_ok (s : mstate) (k : N) (o : lobs) : bool :=
+  let l := lay (ms_lays s) k in
+  nl_eqb (nsort (l_writ l)) (lo_writ o) &&
+  vmap_eqb (smap (l_loc l)) (lo_loc o) && vmap_eqb (smap (l_ro l)) (lo_ro o) && vmap_eqb (smap (l_os l)) (lo_os o) &&
+  (match l_writ l with
+   | [] => (fst (lo_pick o) =? 0)
+   | _ => mem (fst (lo_pick o)) (l_writ l) && nl_eqb (nsort (loc l (fst (lo_pick o)))) (snd (lo_pick o))
+   end) &&
+  (if pick_panics s k then lo_pickdc o =? 999
+   else match pick_rack s k 0 with
+        | [] => lo_pickdc o =? 0
+        | c => mem (lo_pickdc o) c
+        end).
 
-(* ---------- the property's oracle, on the IMPLEMENTATION's observables only ---------- *)
-(* a volume offered for writes has the right number of registered replicas, all
-   writable and all below the size limit *)
-Definition o_sound (c : cfg) (o : obs) : bool :=
-  forallb (r_crit c (ob_reg o)) (ob_writ o).
-(* Lookup returns exactly the registered holders *)
-Definition o_lookup (o : obs) : bool :=
-  forallb (fun p : N * list N => nl_eqb (snd p) (r_holders (ob_reg o) (fst p))) (ob_look o).
+Definition rvol_eqb (a b : rvol) : bool :=
+  let '(v, (sz, ro, k)) := a in let '(v', (sz', ro', k')) := b in
+  (v =? v') && (sz =? sz') && Bool.eqb ro ro' && (k =? k').
+Definition reg_of_obj (ob : obj) : bool * list rvol :=
+  (ob_linked ob, ksort fst (map (fun q : N * vinfo => (fst q, (vi_size (snd q), vi_ro (snd q), key_of ob (fst q)))) (ob_vols ob))).
+Definition regm_eqb := list_eqb (fun a b : bool * list rvol => Bool.eqb (fst a) (fst b) && list_eqb rvol_eqb (snd a) (snd b)).
+
+Definition obs_ok (s : mstate) (o : obs) : bool :=
+  (* layouts outside the key table stay empty *)
+  forallb (fun p : N * layout => (fst p <? N.of_nat (length (ob_lays o))) ||
+                                 match l_loc (snd p), l_writ (snd p) with [], [] => true | _, _ => false end) (ms_lays s) &&
+  forallb (fun p => lobs_ok s (fst p) (snd p)) (keys_of (ob_lays o)) &&
+  forallb (fun p : N * list N =>
+             match lookup_candidates s (fst p) with
+             | [] => match snd p with [] => true | _ => false end
+             | c => amem (snd p) (map nsort c)
+             end) (ob_look o) &&
+  regm_eqb (map (fun p => reg_of_obj (snd p)) (ms_objs s)) (ob_reg o).
+
+(* plain histories (one key, one stream per address, no overlap, fixed racks):
+   the single-layout model of TopoLayout.v, about which the unbounded theorems
+   are stated, must give the same layout as well *)
+Fixpoint brackets_ok (op : list N) (es : list mevent) : bool :=
+  match es with
+  | [] => true
+  | MConnect st _ _ :: es' => negb (mem st op) && brackets_ok (st :: op) es'
+  | MFull st _ :: es' | MIncr st _ _ :: es' => mem st op && brackets_ok op es'
+  | MCollect :: es' => brackets_ok op es'
+  | MClose st :: es' => mem st op && brackets_ok (lremove st op) es'
+  end.
+Definition plain_key (es : list mevent) : option N :=
+  match flat_map (fun e => match e with
+                           | MFull _ vs => map mi_key vs
+                           | MIncr _ news dels => map snd (news ++ dels)
+                           | _ => [] end) es with
+  | [] => None
+  | k :: _ => if forallb (plain_event k) es && brackets_ok [] es then Some k else None
+  end.
+Fixpoint strace (c : cfg) (s : state) (es : list mevent) : list state :=
+  match es with
+  | [] => []
+  | e :: es' => let s' := fold_left (step c) (to_single e) s in s' :: strace c s' es'
+  end.
+Definition single_ok (k : N) (s : state) (o : obs) : bool :=
+  match nth_error (ob_lays o) (N.to_nat k) with
+  | None => false
+  | Some lo =>
+      nl_eqb (nsort (l_writ (s_lay s))) (lo_writ lo) && vmap_eqb (smap (l_loc (s_lay s))) (lo_loc lo) &&
+      vmap_eqb (smap (l_ro (s_lay s))) (lo_ro lo) && vmap_eqb (smap (l_os (s_lay s))) (lo_os lo) &&
+      forallb (fun p : N * list N => nl_eqb (nsort (lookup s (fst p))) (snd p)) (ob_look o)
+  end.
+
+Fixpoint list_all2 {A B} (f : A -> B -> bool) (l1 : list A) (l2 : list B) : bool :=
+  match l1, l2 with
+  | [], [] => true
+  | x :: l1', y :: l2' => f x y && list_all2 f l1' l2'
+  | _, _ => false
+  end.
+
+(* ---------- the property's oracle: the IMPLEMENTATION's observables against the
+   cluster state as the servers reported it (truth, computed from the events only) ---------- *)
+Fixpoint ttrace (t : truth) (es : list mevent) : list truth :=
+  match es with
+  | [] => []
+  | e :: es' => let t' := tstep t e in t' :: ttrace t' es'
+  end.
+
+(* failing clauses of vid v at one step: (lookup or copies, read-only, size) *)
+Definition fails_v (mc : mcfg) (t : truth) (o : obs) (v : N) : bool * bool * bool :=
+  let offered := filter (fun p : N * lobs => mem v (lo_writ (snd p))) (keys_of (ob_lays o)) in
+  let f_look := negb (nl_eqb (match aget v (ob_look o) with Some x => x | None => [] end) (nsort (t_holders t v))) in
+  let f_copies := existsb (fun p : N * lobs => negb (t_copies_ok mc t (fst p) v)) offered in
+  let any := match offered with [] => false | _ => true end in
+  (f_look || f_copies, any && negb (t_rw_ok t v), any && negb (t_size_ok mc t v)).
+
+(* which known finding covers a failing point *)
+Definition cover_v (mc : mcfg) (pre : list mevent) (v : N) (f : bool * bool * bool) : option N :=
+  let '(f_struct, f_rw, f_size) := f in
+  if trig_object_v pre v then Some 2
+  else if trig_relayout_v pre v then Some 1
+  else if trig_split_v pre v then Some 4
+  else if negb f_struct && trig_clobber_v mc pre v then Some 3
+  else if negb f_struct && negb f_rw && trig_size_v mc pre v then Some 0
+  else None.
+
+(* PickForWrite must answer from writables with the layout's locations, and must not panic *)
+Definition pick_consistent (lo : lobs) : bool :=
+  match lo_writ lo with
+  | [] => fst (lo_pick lo) =? 0
+  | _ => mem (fst (lo_pick lo)) (lo_writ lo) &&
+         nl_eqb (match aget (fst (lo_pick lo)) (lo_loc lo) with Some x => x | None => [] end) (snd (lo_pick lo))
+  end && ((lo_pickdc lo =? 0) || mem (lo_pickdc lo) (lo_writ lo)).
+Definition pick_panic (lo : lobs) : bool := lo_pickdc lo =? 999.
+
+(* verdict of one step: None = property holds; Some None = fails outside every
+   trigger; Some (Some k) = every failing point is covered, k = the first one *)
+Definition step_verdict (mc : mcfg) (univ : list N) (pre : list mevent) (t : truth) (o : obs) : option (option N) :=
+  let pts := map (fun v => (v, fails_v mc t o v)) univ in
+  let bad := filter (fun p : N * (bool * bool * bool) => let '(a, b, c) := snd p in a || b || c) pts in
+  let covers := map (fun p : N * (bool * bool * bool) => cover_v mc pre (fst p) (snd p)) bad in
+  (* a panic of PickForWrite(DataCenter) comes from an unlinked DataNode in the list of
+     a writable vid of that layout: covered by that vid's object / relayout trigger *)
+  let panics := map (fun lo => if existsb (trig_object_v pre) (lo_writ lo) then Some 2
+                               else if existsb (trig_relayout_v pre) (lo_writ lo) then Some 1 else None)
+                    (filter pick_panic (ob_lays o)) in
+  let covers := panics ++ covers in
+  let incons := negb (forallb (fun lo => pick_panic lo || pick_consistent lo) (ob_lays o)) in
+  if incons then Some None
+  else match covers with
+       | [] => None
+       | c :: _ => if forallb (fun x : option N => match x with Some _ => true | None => false end) covers then Some c else Some None
+       end.
+
+Fixpoint verdicts (mc : mcfg) (univ : list N) (pre : list mevent) (es : list mevent) (ts : list truth) (os : list obs)
+  : list (option (option N)) :=
+  match es, ts, os with
+  | e :: es', t :: ts', o :: os' =>
+      let pre' := pre ++ [e] in step_verdict mc univ pre' t o :: verdicts mc univ pre' es' ts' os'
+  | _, _, _ => []
+  end.
 
 Definition check (k : case) : outcome :=
-  {| o_corr := list_eqb obs_eqb (map (obs_of (k_univ k)) (trace (k_cfg k) init (k_evs k))) (k_impl k);
-     o_prop := forallb (fun o => o_sound (k_cfg k) o && o_lookup o) (k_impl k);
-     o_trig := if trigger_size (k_cfg k) (k_evs k) then Some 0 else None;
-     o_nontrivial := existsb (fun o => match ob_writ o with [] => false | _ => true end) (k_impl k) |}.
+  let vs := verdicts (k_mc k) (k_univ k) [] (k_evs k) (ttrace tinit (k_evs k)) (k_impl k) in
+  let bad := filter (fun x : option (option N) => match x with Some _ => true | None => false end) vs in
+  {| o_corr := list_all2 obs_ok (mtrace (k_mc k) minit (k_evs k)) (k_impl k) &&
+               match plain_key (k_evs k) with
+               | Some k0 => list_all2 (single_ok k0) (strace (cfg_of (k_mc k) k0) init (k_evs k)) (k_impl k)
+               | None => true
+               end;
+     o_prop := match bad with [] => true | _ => false end;
+     o_trig := match bad with
+               | Some (Some c) :: _ =>
+                   if forallb (fun x : option (option N) => match x with Some None => false | _ => true end) bad then Some c else None
+               | _ => None
+               end;
+     o_nontrivial := existsb (fun o => existsb (fun lo => match lo_writ lo with [] => false | _ => true end) (ob_lays o)) (k_impl k) |}.
 
 Definition summarize_cases (l : list case) : summary := summarize check l.
